@@ -367,7 +367,7 @@ def val2(ctx, pid):
         lcs = []
         for call, a, b in _length_calls(ctx, f):
             if isinstance(a, ast.Name) and a.id == "branch":
-                src = ast.unparse(b).replace(" ", "")
+                src = ast.unparse(util.expand_locals(ctx, f, b)).replace(" ", "")
                 if src in ("len(key)*8", "8*len(key)"):
                     lcs.append(call)
         if not lcs:
